@@ -91,18 +91,18 @@ func init() {
 		ID:    "C14",
 		Level: "exploration",
 		Rule: "operation sequences of (hset h k v) (fresh v each time) and (hdel h k) over a universe of 10 key spellings (symbols a b, strings \"a\" \"b\", ints 1 2, the one-element array [1] (= key 1), char 'x', an int equal to (symnum a) and an int equal to the hash code of \"a\", i.e. unequal keys sharing a bucket): exhaustively all sequences of length <=3 (quick) / <=4 (thorough) over the 20 operations, all sequences of length <=4 / <=5 over a sub-universe, plus 500 / 20000 random sequences of length 30 observed after every step. " +
-			"After the last step (every prefix is itself an enumerated sequence) the monitor reads (len h), (keys h), (hpair h i) for every i, (hget h k) and (hget h k dflt) for every k of the universe, (str h), (json h), the range macro and the go-style for k, v := range h, and compares all of them with an ordered-map model (live keys once each in first-insertion order, latest values); (str h) and (json h) must also be exactly those of a hash built afresh from the model's content; the hash shown twice in one value prints and encodes twice; writing into the arrays that (keys h) and (hpair h i) return must not change the hash; copies (derefSet between records, decoding of an encoding, rebuilding through range) must not change when the source is changed afterwards. Any error or panic text from an observation is a violation. non-trivial = distinct sequence containing a delete of a present key or an update of an existing key",
+			"After the last step (every prefix is itself an enumerated sequence) the monitor reads (len h), (keys h), (hpair h i) for every i, (hget h k) and (hget h k dflt) for every k of the universe, (str h), (json h), the range macro and the go-style for k, v := range h, and compares all of them with an ordered-map model (live keys once each in first-insertion order, latest values); (str h) and (json h) must also be exactly those of a hash built afresh from the model's content; the hash shown twice in one value prints and encodes twice; writing into the arrays that (keys h) and (hpair h i) return must not change the hash; copies (derefSet between records, decoding of an encoding, rebuilding through range) must not change when the source is changed afterwards. 60 further histories store values of every kind (nil, empty string, zero, false, empty containers, chars, floats) under symbol, string and integer keys and compare len, keys, str, hpair at every position, hget with and without default and both iterations with the model: a stored nil is a value like any other. Any error or panic text from an observation is a violation. non-trivial = distinct sequence containing a delete of a present key or an update of an existing key",
 		Assumptions: []string{
 			"key identity follows the language: [k] is k; the universe contains no int equal to a char code and no float keys",
 			"(hpair h (len h)) may fail with any error; the JSON text is only checked for the order of the values it lists (well-formedness is C11's subject)",
 		},
 		NCases: func(c *core.Ctx) int {
 			a, _, b, _, r := c14Plan(c)
-			return a + b + r + c14CopyCases
+			return a + b + r + c14CopyCases + c14KindCases
 		},
 		Exhaustive: func(c *core.Ctx) bool { return true },
 		Chunk:      3000,
-		MustSee:    []string{"observations", "deletes_of_present_key", "reinserts_after_delete", "bucket_sharing_keys_live", "range_iterations"},
+		MustSee:    []string{"observations", "deletes_of_present_key", "reinserts_after_delete", "bucket_sharing_keys_live", "range_iterations", "value_kind_steps"},
 		Run:        c14Run,
 	})
 }
@@ -150,7 +150,9 @@ func c14Copy(c *core.Ctx, k int) *core.Result {
 }
 
 func c14Run(c *core.Ctx, i int) *core.Result {
-	if a, _, b, _, r := c14Plan(c); i >= a+b+r {
+	if a, _, b, _, r := c14Plan(c); i >= a+b+r+c14CopyCases {
+		return c14Kinds(c, i-(a+b+r+c14CopyCases))
+	} else if i >= a+b+r {
 		return c14Copy(c, i-(a+b+r))
 	}
 	keys := c14Universe()
